@@ -195,6 +195,7 @@ def run_C13(tier):
     J += J_('c-futex', 'waitn', wn)
     J += J_('c-futex', 'cv', [t for t in progs.cv_c05(tier) if any(x in t[0] for x in ('N', 'x', 'e', 'c'))][::2])
     J += J_('c-futex', 'cv', [t for t in progs.cv_c04('quick') if 'Wn' in t[0]][::2])
+    J += J_('c-futex', 'cv', [(p, 2 if p.count('|') == 1 else 1, 1) for p in progs.CV_SAME_NOTE]) + J_('c-binsem', 'cv', [(p, 1, 1) for p in progs.CV_SAME_NOTE])
     J += J_('c-futex', 'muwait', [t for t in progs.mw_c05(tier) if 'N' in t[0]])
     return generic('C13', tier, J, 'DFS over scheduler and clock choices; oracle: the runtime liveness monitor on every instrumented plain access, atomic operation and futex argument: freed arena blocks (poisoned, never reused) and the dead part / whole stack of other fibers')
 
